@@ -700,6 +700,10 @@ namespace Pistache::Http::Experimental
     {
         if (requestEntry)
         {
+            // The connection goes back to the pool: what has arrived of the response
+            // that timed out must not be seen by the next response read on it
+            parser.reset();
+
             requestEntry->timer->disarm();
             timerPool_.releaseTimer(requestEntry->timer);
 
